@@ -164,11 +164,14 @@ def depends(v, name):
 
 def apps(v, prefix):
     """every nested application whose name starts with prefix: [(name, args, value)]"""
-    out = []
+    out, seen = [], set()
     for x in walk(v):
         u = app(x)
         if u is not None and u[0].startswith(prefix):
-            out.append((u[0], u[1], x))
+            k = (x.n.key(), x.d.key())
+            if k not in seen:
+                seen.add(k)
+                out.append((u[0], u[1], x))
     return out
 
 
